@@ -50,6 +50,9 @@ typedef struct
 
 } MantisCTRVec128Ctx_t;
 
+static int mantis_ctr_vec128_set_counter
+    (MantisCTR_t *ctr, const void *counter, unsigned size);
+
 static int mantis_ctr_vec128_init(MantisCTR_t *ctr)
 {
     MantisCTRVec128Ctx_t *ctx;
@@ -59,7 +62,9 @@ static int mantis_ctr_vec128_init(MantisCTR_t *ctr)
     ctx->base_ptr = base_ptr;
     ctx->offset = MANTIS_CTR_BLOCK_SIZE;
     ctr->ctx = ctx;
-    return 1;
+
+    /* Start from the all-zero counter block with the lanes staggered */
+    return mantis_ctr_vec128_set_counter(ctr, 0, 0);
 }
 
 static void mantis_ctr_vec128_cleanup(MantisCTR_t *ctr)
